@@ -63,7 +63,7 @@ IMPL_PARALLEL = True
 SHARD = 12
 
 OPS = ['orth_l', 'orth_r', 'compress_l', 'compress_r', 'add', 'sub', 'apply', 'mpo_add', 'mpo_sub', 'mpo_mul', 'mpo_orth',
-       'split_merge', 'split_merge', 'from_vector', 'tdvp1', 'tdvp2', 'dmrg1', 'dmrg2', 'new_state', 'new_zero_state', 'zero_split_sweep', 'split_sweep', 'zero_op']
+       'split_merge', 'split_merge', 'from_vector', 'tdvp1', 'tdvp2', 'dmrg1', 'dmrg2', 'new_state', 'new_zero_state', 'zero_split_sweep', 'split_sweep', 'zero_op', 'zero_derived']
 
 
 def cases(rng, tier):
@@ -372,6 +372,19 @@ def impl(case):
                                            q_total=int(rs.integers(50, 60)))
                 else:
                     name += '(skipped)'
+            elif name == 'zero_derived':
+                # switch quantum numbers off on a DERIVED object; the objects it was built from must keep obeying their own lists
+                k = int(rs.integers(0, 4))
+                if k == 0 and not obig and max(ops[b].bond_dims) <= 8:
+                    (ops[a] + ops[b]).zero_qnumbers() if hasattr(ops[a], 'zero_qnumbers') else None
+                    X = ops[a] + ops[b]; X.qd.fill(0); [q.fill(0) for q in X.qD]
+                elif k == 1 and not big and not obig:
+                    ptn.apply_operator(ops[a], psi).zero_qnumbers()
+                elif k == 2 and max(ops[a].bond_dims) * max(ops[b].bond_dims) <= 40:
+                    X = ops[a] @ ops[b]; X.qd.fill(0); [q.fill(0) for q in X.qD]
+                else:
+                    X = ptn.MPO(ops[a].qd, ops[a].qD, fill=1.0); X.qd.fill(0); [q.fill(0) for q in X.qD]
+                    Y = ptn.MPS(psi.qd, psi.qD, fill=1.0); Y.zero_qnumbers()
             elif name == 'zero_op':
                 # a freshly built MPO from a constructor (graph-to-MPO conversion)
                 ops[1] = _hamiltonian(case, rs, qd=np.array(H.qd))
